@@ -7,11 +7,11 @@ S=/verif/seeded/$1; N=$1; shift
 WT=/tmp/seedalt-$N
 git -C /repo worktree remove --force $WT 2>/dev/null
 git -C /repo worktree add -q --detach $WT HEAD || exit 9
-trap 'git -C /repo worktree remove --force '$WT' 2>/dev/null; rm -rf /verif/.cache/alt-*' EXIT
+trap 'git -C /repo worktree remove --force '$WT' 2>/dev/null; rm -rf /verif/.cache/alt-'$(python3 -c "import hashlib;print(hashlib.sha1(b'$WT').hexdigest()[:8])") EXIT
 (cd $WT && git apply "$S/patch.diff") || { echo "patch does not apply"; exit 9; }
 mkdir -p /verif/.cache/seedlogs
 for P in "$@"; do
   L=/verif/.cache/seedlogs/$N-$P.log
-  (cd /verif && VERIF_ALT_REPO=$WT ./check $P --tier quick --jobs 10 > $L 2>&1); rc=$?
+  (cd /verif && VERIF_ALT_REPO=$WT ./check $P --tier quick --jobs ${SEED_JOBS:-10} > $L 2>&1); rc=$?
   echo "$N $P exit=$rc $(grep -c '^VIOLATION' $L) violation line(s): $(grep '  violation:' $L | head -3 | cut -c1-160 | tr '\n' ';')"
 done
